@@ -128,6 +128,9 @@ class Module:
                     self._index_funcs(h.body, prefix, cls, parent)
 
 
+_CALL_FUNCS = {}
+
+
 class Repo:
     """All shipped modules of gaftools: gaftools/*.py and gaftools/cli/*.py (what __main__ discovers)."""
 
@@ -152,8 +155,11 @@ class Repo:
                     self.modules[name] = Module(name, p, os.path.relpath(p, self.root), src)
                 except SyntaxError as e:
                     raise AnalysisError("E1", os.path.relpath(p, self.root), f"does not parse: {e}")
+        for m_ in self.modules.values():
+            m_.repo = self
         self._fold_named_constants()
         self._positional_calls()
+        self._specialise_constant_params()
 
     # ----------------------------------------------------------------------------------------
     def signature_of(self, func, call):
@@ -214,6 +220,77 @@ class Repo:
                         call.args = args
                         call.keywords = [k for k in call.keywords if k.arg in kw]
 
+    def _specialise_constant_params(self):
+        """Closed-world constant propagation into parameters: when every call of a program function (there is at least one)
+        binds a parameter to the same literal — explicitly, or by leaving it to a default of that value — and the
+        function never rebinds it, reads of the parameter are replaced by the literal (`check_path=True` everywhere,
+        `batch_size=1000`, `encoding="utf-8"`).  Conditions on it then fold like any other constant test."""
+        sites = {}
+        # names (and attribute names) that are read somewhere other than as the callee of a call
+        value_names = set()
+        for m2 in self.modules.values():
+            callee_nodes = {id(c.func) for c in ast.walk(m2.tree) if isinstance(c, ast.Call)}
+            for x in ast.walk(m2.tree):
+                if isinstance(x, ast.Name) and isinstance(x.ctx, ast.Load) and id(x) not in callee_nodes:
+                    value_names.add(x.id)
+                elif isinstance(x, ast.Attribute) and isinstance(x.ctx, ast.Load) and id(x) not in callee_nodes:
+                    value_names.add(x.attr)
+        for mod in self.modules.values():
+            for f in mod.funcs.values():
+                for call in [c for c in walk_own(f.node) if isinstance(c, ast.Call)]:
+                    callee = self.resolve_call(f, call)
+                    if callee is not None:
+                        sites.setdefault((callee.module.name, callee.qualname), []).append((f, call))
+        for mod in self.modules.values():
+            for f in mod.funcs.values():
+                calls = sites.get((mod.name, f.qualname), [])
+                if not calls or f.name.startswith("__"):
+                    continue
+                # a function that is also used as a value (callback, Process target) has unknown callers
+                if f.name in value_names:
+                    continue
+                stored = {x.id for x in ast.walk(f.node) if isinstance(x, ast.Name) and isinstance(x.ctx, (ast.Store, ast.Del))}
+                values = {}
+                ok = True
+                for cf, call in calls:
+                    ba = self.bound_args(cf, call)
+                    if ba is None:
+                        ok = False
+                        break
+                    for p_ in f.params:
+                        v = ba.get(p_)
+                        values.setdefault(p_, []).append(v)
+                if not ok:
+                    continue
+                subst = {}
+                for p_, vs in values.items():
+                    if p_ in ("self", "cls") or p_ in stored or any(v is None for v in vs):
+                        continue
+                    lits = set()
+                    for v in vs:
+                        if isinstance(v, ast.Constant) and (v.value is None or isinstance(v.value, (bool, int, float, str, bytes))):
+                            lits.add((type(v.value).__name__, v.value))
+                        else:
+                            lits.add(("?", id(v)))
+                    if len(lits) == 1 and next(iter(lits))[0] != "?":
+                        subst[p_] = next(iter(lits))[1]
+                if not subst:
+                    continue
+
+                class T(ast.NodeTransformer):
+                    def visit_Name(self, node):
+                        if isinstance(node.ctx, ast.Load) and node.id in subst:
+                            return ast.copy_location(ast.Constant(value=subst[node.id]), node)
+                        return node
+
+                for i, st in enumerate(f.node.body):
+                    if not isinstance(st, (ast.FunctionDef, ast.AsyncFunctionDef, ast.ClassDef)):
+                        f.node.body[i] = T().visit(st)
+                ast.fix_missing_locations(f.node)
+                folded = fold_consts(f)
+                if folded is not f:
+                    f.node.body = folded.node.body
+
     # ----------------------------------------------------------------------------------------
     def _fold_named_constants(self):
         """Reads of *simple named constants* — a module-level name bound exactly once, at module level, to a str / int /
@@ -249,6 +326,23 @@ class Repo:
                         visible[local] = simple[m_][n_]
             if not visible and not dotted:
                 continue
+            # module-level tables that mention named constants (E_DIR = {("+", "+"): (END, START), ...})
+            class T0(ast.NodeTransformer):
+                def visit_Name(self, node):
+                    if isinstance(node.ctx, ast.Load) and node.id in visible:
+                        return ast.copy_location(ast.Constant(value=visible[node.id]), node)
+                    return node
+
+                def visit_Attribute(self, node):
+                    if isinstance(node.ctx, ast.Load) and isinstance(node.value, ast.Name) and (node.value.id, node.attr) in dotted:
+                        return ast.copy_location(ast.Constant(value=dotted[(node.value.id, node.attr)]), node)
+                    return self.generic_visit(node)
+
+            for st in mod.tree.body:
+                if isinstance(st, ast.Assign) and len(st.targets) == 1 and isinstance(st.targets[0], ast.Name) and isinstance(st.value, (ast.Dict, ast.Tuple, ast.List, ast.Set)):
+                    st.value = T0().visit(st.value)
+                    ast.fix_missing_locations(st)
+                    mod.consts[st.targets[0].id] = st.value
             for f in mod.funcs.values():
                 shadow = {x.id for x in ast.walk(f.node) if isinstance(x, ast.Name) and isinstance(x.ctx, (ast.Store, ast.Del))} | set(f.params)
                 if f.parent is not None:
@@ -327,7 +421,14 @@ class Repo:
                     cm, cn = cls
                     return self.modules[cm].funcs.get(cn + "." + fn.attr)
             # unique method name across the program's classes
-            cands = [f for f in self.all_funcs() if f.cls and f.name == fn.attr]
+            idx = getattr(self, "_method_index", None)
+            if idx is None:
+                idx = {}
+                for f in self.all_funcs():
+                    if f.cls:
+                        idx.setdefault(f.name, []).append(f)
+                self._method_index = idx
+            cands = idx.get(fn.attr, [])
             if len(cands) == 1:
                 return cands[0]
         return None
@@ -359,6 +460,18 @@ class Repo:
 
     def local_class_of(self, func: Func, var: str):
         """Class of a local variable assigned from a constructor call `var = Cls(...)`."""
+        cache = func.__dict__.setdefault("_local_classes", None)
+        if cache is None:
+            cache = {}
+            for n in ast.walk(func.node):
+                if isinstance(n, ast.Assign) and len(n.targets) == 1:
+                    t = n.targets[0]
+                    if isinstance(t, ast.Name) and isinstance(n.value, ast.Call) and isinstance(n.value.func, ast.Name) and t.id not in cache:
+                        c = self.class_by_dotted(func, n.value.func.id)
+                        if c:
+                            cache[t.id] = c
+            func.__dict__["_local_classes"] = cache
+        return cache.get(var)
         for n in ast.walk(func.node):
             if isinstance(n, ast.Assign) and len(n.targets) == 1:
                 t = n.targets[0]
@@ -662,6 +775,19 @@ def returns_to_assign(stmts, make):
     return out
 
 
+def _closed_helper(callee):
+    """the function body reads only its parameters, its own locals and builtins (so it means the same in any module)"""
+    import builtins
+
+    if callee.cls is not None:
+        return False
+    local = set(callee.params) | {x.id for x in ast.walk(callee.node) if isinstance(x, ast.Name) and isinstance(x.ctx, ast.Store)}
+    for x in ast.walk(callee.node):
+        if isinstance(x, ast.Name) and isinstance(x.ctx, ast.Load) and x.id not in local and not hasattr(builtins, x.id):
+            return False
+    return True
+
+
 def inline_tail_calls(repo, func, depth=2, keep=None):
     """Copy of the function AST in which a statement `return helper(args)` / `x = helper(args)` / `x, y = helper(args)`
     (in any block of the function), where helper is a function of the same module with a multi-statement body, is
@@ -688,8 +814,10 @@ def inline_tail_calls(repo, func, depth=2, keep=None):
         elif isinstance(st, ast.Expr) and isinstance(st.value, ast.YieldFrom) and isinstance(st.value.value, ast.Call):
             call, kind = st.value.value, "yieldfrom"
         callee = repo.resolve_call(func, call) if call is not None else None
-        if callee is None or callee is func or same_func(callee, func) or callee.module is not func.module:
+        if callee is None or callee is func or same_func(callee, func):
             return None
+        if callee.module is not func.module and not _closed_helper(callee):
+            return None  # a helper of another module is inlined only when it refers to nothing but its parameters, locals and builtins
         recv = None
         if callee.cls != func.cls and callee.cls is not None:
             # a method of a same-module class called on a local instance (`t = Table(); t.add(x)`): self := t
@@ -1104,6 +1232,13 @@ def unroll_const_loops(func, limit=8):
     for n in ast.walk(func.node):
         if isinstance(n, ast.Name):
             all_names[n.id] = all_names.get(n.id, 0) + 1
+    ldefs = local_defs(func.node)
+    mutated = set()
+    for n in ast.walk(func.node):
+        if isinstance(n, ast.Call) and isinstance(n.func, ast.Attribute) and n.func.attr in _MUTATORS and isinstance(n.func.value, ast.Name):
+            mutated.add(n.func.value.id)
+        if isinstance(n, (ast.Subscript, ast.Attribute)) and isinstance(n.ctx, (ast.Store, ast.Del)) and isinstance(n.value, ast.Name):
+            mutated.add(n.value.id)
 
     def block(stmts):
         out = []
@@ -1118,11 +1253,18 @@ def unroll_const_loops(func, limit=8):
                 start = st.iter.args[1] if len(st.iter.args) > 1 else next((k.value for k in st.iter.keywords if k.arg == "start"), ast.Constant(value=0))
                 if isinstance(start, ast.Constant) and isinstance(start.value, int):
                     enum_target = (st.target.elts[0].id, st.target.elts[1].id, start.value, st.iter.args[0])
-            if isinstance(st, ast.For) and (isinstance(st.target, ast.Name) or enum_target) and not st.orelse:
+            tuple_target = None
+            if isinstance(st, ast.For) and not st.orelse and not enum_target and isinstance(st.target, ast.Tuple) and all(isinstance(e, ast.Name) for e in st.target.elts):
+                tuple_target = [e.id for e in st.target.elts]
+            if isinstance(st, ast.For) and (isinstance(st.target, ast.Name) or enum_target or tuple_target) and not st.orelse:
                 it = enum_target[3] if enum_target else st.iter
                 if isinstance(it, ast.Name) and it.id in consts:
                     it = consts[it.id]
+                elif isinstance(it, ast.Name) and len(ldefs.get(it.id, [])) == 1 and isinstance(ldefs[it.id][0], (ast.Tuple, ast.List)) and it.id not in mutated:
+                    it = ldefs[it.id][0]  # a local literal tuple that is only iterated
                 def simple(e):
+                    if tuple_target is not None:
+                        return isinstance(e, ast.Tuple) and len(e.elts) == len(tuple_target) and all(isinstance(x, (ast.Constant, ast.Name)) for x in e.elts)
                     return isinstance(e, (ast.Constant, ast.Name)) or (isinstance(e, ast.Tuple) and all(isinstance(x, (ast.Constant, ast.Name)) for x in e.elts))
 
                 body_stores = {x.id for b_ in st.body for x in ast.walk(b_) if isinstance(x, ast.Name) and isinstance(x.ctx, ast.Store)}
@@ -1134,11 +1276,16 @@ def unroll_const_loops(func, limit=8):
                             if isinstance(x, ast.Name):
                                 inside[x.id] = inside.get(x.id, 0) + 1
                     assigned = {x.id for b_ in st.body for x in ast.walk(b_) if isinstance(x, ast.Name) and isinstance(x.ctx, ast.Store)}
-                    tnames = {enum_target[0], enum_target[1]} if enum_target else {st.target.id}
+                    tnames = {enum_target[0], enum_target[1]} if enum_target else (set(tuple_target) if tuple_target else {st.target.id})
                     temps = {nm for nm in assigned if inside[nm] == all_names.get(nm, 0) and nm not in tnames}
                     for k, c in enumerate(it.elts):
                         ren = {nm: f"{nm}__{k}" for nm in temps}
-                        sub = {enum_target[0]: ast.Constant(value=enum_target[2] + k), enum_target[1]: c} if enum_target else {st.target.id: c}
+                        if enum_target:
+                            sub = {enum_target[0]: ast.Constant(value=enum_target[2] + k), enum_target[1]: c}
+                        elif tuple_target:
+                            sub = dict(zip(tuple_target, c.elts))
+                        else:
+                            sub = {st.target.id: c}
                         for b_ in st.body:
                             nb = _Rename(ren, sub).visit(copy.deepcopy(b_))
                             out.append(nb)
@@ -1498,6 +1645,27 @@ def fold_consts(func):
                 return node.body if node.test.value else node.orelse
             return node
 
+        def visit_BoolOp(self, node):
+            self.generic_visit(node)
+            vals = []
+            for v in node.values:
+                if isinstance(v, ast.Constant) and isinstance(v.value, bool):
+                    if isinstance(node.op, ast.Or):
+                        if v.value:
+                            return v if not vals else node  # `x or True`: x is still evaluated, keep as is
+                        continue  # `False or x` == x
+                    else:
+                        if not v.value:
+                            return v if not vals else node
+                        continue  # `True and x` == x
+                vals.append(v)
+            if not vals:
+                return ast.copy_location(ast.Constant(value=isinstance(node.op, ast.And)), node)
+            if len(vals) == 1:
+                return vals[0]
+            node.values = vals
+            return node
+
         def visit_If(self, node):
             self.generic_visit(node)
             if isinstance(node.test, ast.Constant) and isinstance(node.test.value, bool):
@@ -1660,6 +1828,99 @@ def sink_into_branches(func):
     return Func(func.module, func.qualname, root, func.cls, func.parent)
 
 
+def namedtuple_tables(repo):
+    """module -> {name: [fields]} of the module-level namedtuples (collections.namedtuple and typing.NamedTuple classes);
+    plus the set of field names that are *unambiguous*: they name the same position in every namedtuple that has them
+    and are not attributes of any program class."""
+    tables = {}
+    for mname, mod in repo.modules.items():
+        t = {}
+        for name, e in mod.consts.items():
+            if isinstance(e, ast.Call) and norm(e.func).endswith("namedtuple") and len(e.args) >= 2:
+                a1 = e.args[1]
+                if isinstance(a1, (ast.List, ast.Tuple)) and all(isinstance(x, ast.Constant) for x in a1.elts):
+                    t[name] = [x.value for x in a1.elts]
+                elif isinstance(a1, ast.Constant) and isinstance(a1.value, str):
+                    t[name] = a1.value.replace(",", " ").split()
+        for cname, cdef in mod.classes.items():
+            if any(norm(b).endswith("NamedTuple") for b in cdef.bases):
+                t[cname] = [st.target.id for st in cdef.body if isinstance(st, ast.AnnAssign) and isinstance(st.target, ast.Name)]
+        tables[mname] = t
+    pos = {}
+    for t in tables.values():
+        for fields in t.values():
+            for i, fld in enumerate(fields):
+                pos.setdefault(fld, set()).add(i)
+    class_attrs = set()
+    for mod in repo.modules.values():
+        for f in mod.funcs.values():
+            if f.cls is not None and f.cls not in tables.get(mod.name, {}):
+                class_attrs.add(f.name)
+                for x in ast.walk(f.node):
+                    if isinstance(x, ast.Attribute) and isinstance(x.value, ast.Name) and x.value.id == "self":
+                        class_attrs.add(x.attr)
+        for cname, cdef in mod.classes.items():
+            if cname in tables.get(mod.name, {}):
+                continue
+            for st in cdef.body:
+                if isinstance(st, ast.AnnAssign) and isinstance(st.target, ast.Name):
+                    class_attrs.add(st.target.id)
+                if isinstance(st, ast.Assign):
+                    for tg in st.targets:
+                        for x in ast.walk(tg):
+                            if isinstance(x, ast.Name):
+                                class_attrs.add(x.id)
+    unamb = {fld: next(iter(p_)) for fld, p_ in pos.items() if len(p_) == 1 and fld not in class_attrs}
+    return tables, unamb
+
+
+def detuple(repo, func, only=None):
+    """A Func in which module-level namedtuples are plain tuples: `NT(a, b)` / `NT(f1=a, f2=b)` is the tuple `(a, b)`, and
+    `x.f1` is `x[0]` for a field name that means one position in every namedtuple of the program and is not an attribute
+    of a program class.  `only`: restrict to these namedtuple names."""
+    import copy
+
+    tables, unamb = namedtuple_tables(repo)
+    visible = {}
+    for name, fields in tables.get(func.module.name, {}).items():
+        visible[name] = fields
+    for local, tgt in func.module.imports.items():
+        if "." in tgt:
+            m_, n_ = tgt.rsplit(".", 1)
+            if n_ in tables.get(m_, {}):
+                visible[local] = tables[m_][n_]
+    if only is not None:
+        visible = {k: v for k, v in visible.items() if k in only}
+    fields_ok = {fld: i for fld, i in unamb.items() if any(fld in v for v in visible.values())}
+    if not visible:
+        return func
+
+    class T(ast.NodeTransformer):
+        def visit_Call(self, node):
+            self.generic_visit(node)
+            nm = norm(node.func)
+            if nm in visible and not any(isinstance(a, ast.Starred) for a in node.args) and all(k.arg for k in node.keywords):
+                fields = visible[nm]
+                vals = dict(zip(fields, node.args))
+                for k in node.keywords:
+                    vals[k.arg] = k.value
+                if all(fld in vals for fld in fields):
+                    return ast.copy_location(ast.Tuple(elts=[vals[fld] for fld in fields], ctx=ast.Load()), node)
+            return node
+
+        def visit_Attribute(self, node):
+            self.generic_visit(node)
+            if isinstance(node.ctx, ast.Load) and node.attr in fields_ok and not (isinstance(node.value, ast.Name) and node.value.id == "self"):
+                return ast.copy_location(ast.Subscript(value=node.value, slice=ast.Constant(value=fields_ok[node.attr]), ctx=ast.Load()), node)
+            return node
+
+    root = T().visit(copy.deepcopy(func.node))
+    if ast.dump(root) == ast.dump(func.node):
+        return func
+    ast.fix_missing_locations(root)
+    return Func(func.module, func.qualname, root, func.cls, func.parent)
+
+
 def desugar_comprehensions(func):
     """A Func in which   X.extend(E for v in IT if C)   /   X = [E for v in IT if C]   /   X += [E for ...]   (one
     generator) are written as loops that append."""
@@ -1735,6 +1996,39 @@ def normal(repo, func, keep=None):
 def normal_loops(repo, func, keep=None):
     """normal() plus comprehensions that fill a list written as loops."""
     return normal(repo, desugar_comprehensions(func), keep=keep)
+
+
+def find_sniffer(repo, rule="E1"):
+    """The function that detects compression from the content: it opens its argument in binary mode and compares the first
+    bytes read with the gzip magic number (located by that shape, whatever it is called and wherever it lives)."""
+    cands = []
+    for f in repo.all_funcs():
+        has_magic = any(isinstance(x, ast.Constant) and isinstance(x.value, bytes) and x.value.startswith(b"\x1f\x8b") for x in ast.walk(f.node))
+        reads = any(isinstance(x, ast.Call) and isinstance(x.func, ast.Attribute) and x.func.attr == "read" for x in ast.walk(f.node))
+        if has_magic and reads and len(f.params) >= 1:
+            cands.append(f)
+    if len(cands) != 1:
+        byname = [f for f in repo.all_funcs() if f.name in ("is_file_gzipped", "is_gzipped")]
+        if len(byname) == 1:
+            return byname[0]
+        raise AnalysisError(rule, "gaftools/", f"cannot find the function that sniffs the compression of a file ({len(cands)} candidates)")
+    return cands[0]
+
+
+def tag_grammar(repo, rule="E1"):
+    """(module, tag pattern text, types table {letter: pattern text}, validator function) of the SAM-style tag grammar: a
+    module-level dict from single type letters to regular expressions, the module-level pattern whose type class lists
+    those letters, and the function that reads both — located by shape in whichever module they live."""
+    for mod in repo.modules.values():
+        for name, d in mod.consts.items():
+            if isinstance(d, ast.Dict) and d.keys and all(isinstance(k, ast.Constant) and isinstance(k.value, str) and len(k.value) == 1 for k in d.keys) and all(isinstance(v, ast.Constant) and isinstance(v.value, str) for v in d.values) and {"A", "i", "f", "Z"} <= {k.value for k in d.keys}:
+                types = {k.value: v.value for k, v in zip(d.keys, d.values)}
+                pats = [(n2, e2) for n2, e2 in mod.consts.items() if isinstance(e2, ast.Constant) and isinstance(e2.value, str) and "AifZ" in e2.value.replace("[", "").replace("]", "")[0:60] or (isinstance(e2, ast.Constant) and isinstance(e2.value, str) and "[AifZHB]" in e2.value)]
+                pats = [(n2, e2) for n2, e2 in pats if "(" not in e2.value]  # the validating pattern, not a capturing parser pattern
+                users = [f for f in mod.funcs.values() if any(isinstance(x, ast.Subscript) and isinstance(x.value, ast.Name) and x.value.id == name for x in ast.walk(f.node))]
+                if len(pats) >= 1 and users:
+                    return mod, pats[0][0], pats[0][1], name, d, users[0]
+    raise AnalysisError(rule, "gaftools/", "cannot find the tag grammar (type-letter table, tag pattern and validator)")
 
 
 def regex_call(mod, call):
